@@ -38,19 +38,21 @@ pub(crate) trait MCTPControlMessageRequest {
             CommandCode::GetVendorDefinedMessageSupport => 1,
             CommandCode::ResolveEndpointID => 1,
             CommandCode::AllocateEndpointIDs => 3,
-            CommandCode::RoutingInformationUpdate => unimplemented!(),
-            CommandCode::GetRoutingTableEntries => unimplemented!(),
-            CommandCode::PrepareForEndpointDiscovery => unimplemented!(),
-            CommandCode::EndpointDiscovery => unimplemented!(),
-            CommandCode::DiscoveryNotify => unimplemented!(),
-            CommandCode::GetNetworkID => unimplemented!(),
-            CommandCode::QueryHop => unimplemented!(),
-            CommandCode::ResolveUUID => unimplemented!(),
-            CommandCode::QueryRateLimit => unimplemented!(),
-            CommandCode::RequestTXRateLimit => unimplemented!(),
-            CommandCode::UpdateRateLimit => unimplemented!(),
-            CommandCode::QuerySupportedInterfaces => unimplemented!(),
-            CommandCode::Unknown => unimplemented!(),
+            // These commands either have a variable length request or we
+            // don't know the command, so we can't check the length
+            CommandCode::RoutingInformationUpdate => 0,
+            CommandCode::GetRoutingTableEntries => 0,
+            CommandCode::PrepareForEndpointDiscovery => 0,
+            CommandCode::EndpointDiscovery => 0,
+            CommandCode::DiscoveryNotify => 0,
+            CommandCode::GetNetworkID => 0,
+            CommandCode::QueryHop => 0,
+            CommandCode::ResolveUUID => 0,
+            CommandCode::QueryRateLimit => 0,
+            CommandCode::RequestTXRateLimit => 0,
+            CommandCode::UpdateRateLimit => 0,
+            CommandCode::QuerySupportedInterfaces => 0,
+            CommandCode::Unknown => 0,
         }
     }
 
